@@ -205,6 +205,29 @@ def polyroots(ctx, coeffs, maxsteps=50, cleanup=True, extraprec=10,
                 elif abs(ctx._re(roots[i])) < tol:
                     roots[i] = roots[i].imag * 1j
         roots.sort(key=lambda x: (abs(ctx._im(x)), ctx._re(x)))
+        # The sort alone does not keep conjugates together: the computed |im| of the two
+        # members of a pair can differ in the last bits, and roots of other pairs with
+        # (nearly) the same |im| then end up in between.  Keep the real roots first and
+        # pair every root of the upper half plane with the remaining root of the lower
+        # half plane closest to its conjugate; the two keep their relative order.
+        real, upper, lower = [], [], []
+        for k, r in enumerate(roots):
+            im = ctx._im(r)
+            if not im:
+                real.append(r)
+            elif im > 0:
+                upper.append((k, r))
+            else:
+                lower.append((k, r))
+        roots = real
+        for k, r in upper:
+            if lower:
+                c = min(lower, key=lambda kx: abs(kx[1] - ctx.conj(r)))
+                lower.remove(c)
+                roots += [c[1], r] if c[0] < k else [r, c[1]]
+            else:
+                roots.append(r)
+        roots += [x for k, x in lower]
     if error:
         err = max(err)
         err = max(err, ctx.ldexp(1, -orig+1))
